@@ -44,8 +44,13 @@ void do_plan(int tier)
   unsigned lane = rksim_lane_bit();
   if (lane == LANE_DEBUG)
     plan.init_threads = 0;
-  else if (lane == LANE_INTERNAL)
+  else if (lane == LANE_INTERNAL) {
     plan.init_threads = 1 + (int)sim_plan(4);  // 1: the calling thread is the only tasking thread
+    if (sim_plan(8) == 0) {
+      plan.init_threads = 0;  // never initialised: the back end creates its scheduler on first use
+      plan.lazy_teardown = 1;
+    }
+  }
   else
     plan.init_threads = sim_plan(3) ? 1 + (int)sim_plan(4) : 0;
   sim_set_cores(2 + (int)sim_plan(4));
